@@ -122,14 +122,16 @@ class Fam:
 
 
 class Gauss(Fam):
-    def __init__(self, ck, rng):
+    def __init__(self, ck, rng, dom=None, dd=None, cplx=None, kinds=None):
         ift = ck.state["ift"]
         DenseOp, DenseLin = ck.state["DenseOp"], ck.state["DenseLin"]
-        dom, dd = gen_data_dom(ift, rng)
+        if dom is None:
+            dom, dd = gen_data_dom(ift, rng)
         n = dom.size
-        self.cplx = cplx = bool(rng.integers(0, 3) == 0)
+        self.cplx = cplx = bool(rng.integers(0, 3) == 0) if cplx is None else cplx
         dt = np.complex128 if cplx else np.float64
-        kind = str(rng.choice(["none", "scaling", "diag", "sand_sq", "sand_rect", "sand_diagbun"]))
+        kind = str(rng.choice(kinds or ["none", "scaling", "diag", "diag_view", "scaling_view",
+                                        "sand_sq", "sand_rect", "sand_diagbun"]))
         withdata = bool(rng.integers(0, 5) != 0)
 
         def rnd(shape):
@@ -154,6 +156,21 @@ class Gauss(Fam):
             v = np.round(np.exp(rng.uniform(-1, 1, dom.shape)), 3)
             sdt = dt if rng.integers(0, 3) else None
             icov, Ninv = ift.DiagonalOperator(ift.makeField(dom, v), sampling_dtype=sdt), np.diag(v.reshape(-1))
+        elif kind in ("diag_view", "scaling_view"):
+            # the usual way of passing a noise covariance N: inverse_covariance=N.inverse (and the
+            # adjoint / adjoint-inverse views of a real diagonal, which are the same matrices)
+            view = str(rng.choice(["inverse", "inverse", "adjoint", "adjoint_inverse"]))
+            if kind == "diag_view":
+                v = np.round(np.exp(rng.uniform(-1, 1, dom.shape)), 3)
+                base = ift.DiagonalOperator(ift.makeField(dom, v), sampling_dtype=dt)
+                w = v.reshape(-1)
+            else:
+                sc = float(np.round(np.exp(rng.uniform(-1, 1)), 3))
+                base = ift.ScalingOperator(dom, sc, sampling_dtype=dt)
+                w = np.full(n, sc)
+            icov = {"inverse": base.inverse, "adjoint": base.adjoint, "adjoint_inverse": base.adjoint.inverse}[view]
+            Ninv = np.diag(w if view == "adjoint" else 1.0 / w)
+            kind = f"{kind}:{view}"
         else:
             if kind == "sand_sq":
                 U, V = cs.rand_unitary(rng, n, cplx), cs.rand_unitary(rng, n, cplx)
@@ -703,8 +720,8 @@ def trafo_layout(ift, tr_target, dtp, default_cplx):
 def case(ck, i):
     ift = ck.state["ift"]
     rng = ck.rng()
-    comp = str(rng.choice(["natural", "natural", "scaled", "model", "model", "model_scaled", "sum", "sum",
-                           "hamiltonian", "averaged", "specialised", "specialised"]))
+    comp = str(rng.choice(["natural", "natural", "scaled", "model", "model", "model_scaled", "sum", "sum", "sum",
+                           "hamiltonian", "hamiltonian", "averaged", "specialised", "specialised", "bare", "bare"]))
     famcls = FAMILIES[int(rng.integers(0, len(FAMILIES)))]
     if i < len(FAMSET):
         # the first cases walk through every family in natural parameters (so that every deciding
@@ -712,12 +729,22 @@ def case(ck, i):
         famcls, comp = FAMSET[i], "natural"
     elif i < len(FAMSET) + 8:
         comp = "specialised"
+    elif i < len(FAMSET) + 20:
+        comp = "bare"
     if comp == "specialised":
         famcls = VCGauss
-    fam = famcls(ck, rng)
+    bare = comp == "bare"
+    if bare:
+        # a real Gaussian with a diagonal / scaling inverse covariance (incl. inverse and adjoint views)
+        # acting directly on the parameters, inside a Hamiltonian or a sum: the metric is a sum of bare
+        # diagonal and scaling operators that the operator algebra folds into one
+        comp = "hamiltonian" if rng.integers(0, 2) else "sum"
+        fam = Gauss(ck, rng, cplx=False, kinds=["diag", "diag_view", "diag_view", "scaling_view", "scaling", "none"])
+    else:
+        fam = famcls(ck, rng)
     if comp != "natural" and comp != "scaled" and isinstance(fam, Categorical):
         comp = "scaled" if rng.integers(0, 2) else "natural"
-    desc = dict(comp=comp, fams=[fam.desc])
+    desc = dict(comp=comp, fams=[fam.desc], bare=bare)
     terms = []
     names = None
     extra_prior = 0.0
@@ -774,48 +801,75 @@ def case(ck, i):
         desc.update(constant=which, wrapped=wrap)
     else:
         pdom, P, pd = gen_param_dom(ift, rng)
+        ident = False
+        if bare or (comp in ("sum", "hamiltonian") and isinstance(fam, Gauss) and not fam.cplx
+                    and rng.integers(0, 2) == 0):
+            # likelihood acting directly on the parameters (no forward model): the metric of the
+            # Hamiltonian / of the sum is then a sum of bare (diagonal, scaling, ...) operators that the
+            # operator algebra simplifies
+            pdom, P, pd, ident = fam.dom, fam.n, ["famdom", fam.n], True
         lay = cs.Layout(pdom, False)
         desc["pdom"] = pd
         gen = lambda r: r.standard_normal(P) * 0.8
-        m1 = Model(ck, rng, fam, pdom, P)
-        desc["link"] = getattr(m1, "link", m1.kind)
+        m1 = None if ident else Model(ck, rng, fam, pdom, P)
+        desc["link"] = "none" if ident else getattr(m1, "link", m1.kind)
         if comp in ("model", "hamiltonian", "averaged"):
-            op = fam.op @ m1.op
+            op = fam.op if ident else fam.op @ m1.op
             terms = [Term(fam, m1)]
         elif comp == "model_scaled":
             c = float(np.round(np.exp(rng.uniform(-1.5, 1.5)), 3))
             op = c * (fam.op @ m1.op) if rng.integers(0, 2) else (c * fam.op) @ m1.op
             terms = [Term(fam, m1, c)]
             desc["c"] = c
-        else:   # sum of two likelihoods on the same parameter space
-            for _ in range(20):
-                fam2 = FAMILIES[int(rng.integers(0, len(FAMILIES)))](ck, rng)
-                if not isinstance(fam2, Categorical):
-                    break
-            m2 = Model(ck, rng, fam2, pdom, P)
-            desc["fams"].append(fam2.desc)
-            e1, e2 = fam.op @ m1.op, fam2.op @ m2.op
-            c2 = 1.0
-            if rng.integers(0, 3) == 0:
-                c2 = float(np.round(np.exp(rng.uniform(-1, 1)), 3))
-                e2 = c2 * e2
+        else:   # sum of two to four likelihoods on the same parameter space, in every parenthesisation
+            nt = int(rng.choice([2, 2, 3, 4]))
+            es = [fam.op if ident else fam.op @ m1.op]
+            terms = [Term(fam, m1)]
+            for _ in range(nt - 1):
+                for _ in range(20):
+                    fam2 = FAMILIES[int(rng.integers(0, len(FAMILIES)))](ck, rng)
+                    if not isinstance(fam2, Categorical):
+                        break
+                if ident and (bare or rng.integers(0, 2)):
+                    # a second bare Gaussian measurement of the same parameters
+                    fam2 = Gauss(ck, rng, dom=fam.dom, dd=fam.desc["dom"], cplx=False,
+                                 kinds=["none", "scaling", "diag", "diag_view", "scaling_view"] if bare else None)
+                if ident and isinstance(fam2, Gauss) and not fam2.cplx and fam2.dom == fam.dom:
+                    m2, e2 = None, fam2.op
+                else:
+                    m2 = Model(ck, rng, fam2, pdom, P)
+                    e2 = fam2.op @ m2.op
+                desc["fams"].append(fam2.desc)
+                c2 = 1.0
+                if rng.integers(0, 3) == 0:
+                    c2 = float(np.round(np.exp(rng.uniform(-1, 1)), 3))
+                    e2 = c2 * e2
+                es.append(e2)
+                terms.append(Term(fam2, m2, c2))
             named = int(rng.integers(0, 3))
             if named >= 1:
-                e1.name = "lh_one"
+                es[0].name = "lh_one"
             if named == 2:
-                e2.name = "two"
+                es[1].name = "two"
             desc["named"] = named
-            op = e1 + e2
-            terms = [Term(fam, m1), Term(fam2, m2, c2)]
-            mech = "sum"
+            tree = []
+            while len(es) > 1:
+                j = int(rng.integers(0, len(es) - 1))
+                tree.append(j)
+                es[j:j + 2] = [es[j] + es[j + 1]]
+            desc["tree"] = tree
+            op = es[0]
+            mech = "sum" + (":bare" if bare else "")
         if comp == "hamiltonian":
             ic = None
             if rng.integers(0, 2):
                 ic = ift.GradientNormController(iteration_limit=5)
-            op = ift.StandardHamiltonian(op, ic_samp=ic)
+            psd = np.float64 if (rng.integers(0, 2) or (bare and rng.integers(0, 2))) else None
+            op = ift.StandardHamiltonian(op, ic_samp=ic, prior_sampling_dtype=psd)
             extra_prior = 1.0
             desc["ic_samp"] = ic is not None
-            mech = "StandardHamiltonian"
+            desc["prior_sampling_dtype"] = None if psd is None else "float64"
+            mech = "StandardHamiltonian" + (":bare" if bare else "")
         if comp == "averaged":
             ns = int(rng.integers(1, 4))
             shifts = [np.round(rng.standard_normal(P) * 0.3, 3) for _ in range(ns)]
@@ -1056,4 +1110,4 @@ def case(ck, i):
                          exp_diag=np.round(np.diagonal(F), 6).tolist())
     nonscalar = all(t.fam.n > 1 for t in terms)
     nontriv = nonscalar and (comp not in ("natural",) or not fam.trivial_cov)
-    ck.note(desc, nontrivial=nontriv, klass=f"{comp}:{type(fam).__name__}")
+    ck.note(desc, nontrivial=nontriv, klass=f"{'bare-' if bare else ''}{comp}:{type(fam).__name__}")
